@@ -124,7 +124,7 @@ struct Dec {
 			unsigned l;
 			size_t at = pos;
 			if (!u8(pos, l)) return false;
-			if (l == 0) break;
+			if (l == 0) { mine.push_back(at); break; }	// the root label of this name: the shortest suffix a pointer may refer to
 			if ((l & 0xc0) == 0xc0) {
 				unsigned lo;
 				if (!u8(pos, lo)) return false;
